@@ -77,7 +77,7 @@ class LinksEngine(LinksEngineBase):
         anticipation = (eta * T / tau) * (rho_down - rho) / (L * (rho + kappa))
         v_next = v + relaxation + convection - anticipation
         if q_ramp is not None and delta is not None:
-            v_next[0] -= (delta * T * q_ramp * v[0]) / (L * lanes * (rho[0] + kappa))
+            v_next[:1] -= (delta * T * q_ramp * v[0]) / (L * lanes * (rho[0] + kappa))
         if lanes_drop is not None and phi is not None and rho_crit is not None:
             v_next[-1] -= (phi * T * lanes_drop * rho[-1] * v[-1] ** 2) / (
                 L * lanes * rho_crit
